@@ -1,8 +1,12 @@
 package core
 
 import (
+	"github.com/bluenviron/gortsplib/v5/pkg/description"
+
 	"github.com/bluenviron/mediamtx/internal/conf"
 	"github.com/bluenviron/mediamtx/internal/defs"
+	"github.com/bluenviron/mediamtx/internal/externalcmd"
+	"github.com/bluenviron/mediamtx/internal/forward"
 	"github.com/bluenviron/mediamtx/internal/logger"
 	"github.com/bluenviron/mediamtx/internal/stream"
 	"github.com/bluenviron/mediamtx/internal/zzverif/vnd"
@@ -55,3 +59,68 @@ func VerifRemoveForeignPublisher() {
 	vnd.Cover(true, "foreign removal ignored")
 }
 
+
+type verifC16Parent struct{}
+
+func (verifC16Parent) Log(logger.Level, string, ...any) {}
+func (verifC16Parent) setPathReady(*path)               {}
+func (verifC16Parent) setPathNotReady(*path)            {}
+func (verifC16Parent) closePathIfIdle(*path)            {}
+func (verifC16Parent) removePath(*path)                 {}
+func (verifC16Parent) AddReader(defs.PathAddReaderReq) (*defs.PathAddReaderRes, error) {
+	return nil, nil
+}
+
+// VerifReplacedPublisherIsCutOff: an always-available path (whose stream outlives its publishers) with a
+// publisher A; then A is removed, or a second publisher B arrives (compatible with the stream or not, with
+// overridePublisher on or off). Whenever A stops being the source, what A still writes goes nowhere.
+func VerifReplacedPublisherIsCutOff() {
+	vnd.GoMode("skip")
+	override := vnd.Bool("overridePublisher")
+	pa := &path{
+		conf: &conf.Path{Source: "publisher", AlwaysAvailable: true, OverridePublisher: override},
+		name: "p", parent: verifC16Parent{}, readers: map[defs.Reader]struct{}{},
+		forwardManager: &forward.Manager{}, externalCmdPool: &externalcmd.Pool{},
+	}
+	err := pa.setAvailable(nil, "", nil, true) // what run() does first on an always-available path
+	vnd.Assume(err == nil)
+	a := &verifPublisher{}
+	resA := make(chan defs.PathAddPublisherRes, 2)
+	pa.doAddPublisher(defs.PathAddPublisherReq{Author: a, Desc: &description.Session{}, Res: resA})
+	rA := <-resA
+	vnd.Assert(rA.Err == nil && pa.source == defs.Source(a), "the first publisher is attached")
+	subA := rA.SubStream
+
+	if vnd.Bool("removed") {
+		pa.doRemovePublisher(defs.PathRemovePublisherReq{Author: a, Res: make(chan struct{})})
+		vnd.Assert(pa.source == nil, "a removed publisher is not the source")
+	} else {
+		b := &verifPublisher{}
+		descB := &description.Session{}
+		if vnd.Bool("incompatible") {
+			descB.Medias = []*description.Media{{}} // one track more than the stream offers
+		}
+		resB := make(chan defs.PathAddPublisherRes, 2)
+		pa.doAddPublisher(defs.PathAddPublisherReq{Author: b, Desc: descB, Res: resB})
+		vnd.Assert(len(resB) == 1, "exactly one response to an add-publisher request")
+		rB := <-resB
+		if !override {
+			vnd.Assert(rB.Err != nil && pa.source == defs.Source(a) && a.closed == 0, "without overridePublisher the second publisher is refused and the first stays")
+		} else {
+			vnd.Assert(a.closed == 1, "the previous publisher is closed before the new one is attached")
+			if rB.Err == nil {
+				vnd.Assert(pa.source == defs.Source(b), "the new publisher is the source")
+			} else {
+				vnd.Assert(pa.source == nil, "a refused replacement leaves the path without source")
+			}
+		}
+	}
+	if pa.source != defs.Source(a) {
+		// routing a unit needs the media maps: with nil arguments any attempt to route faults,
+		// while a sub-stream that is not the stream's current one returns before
+		routed := vnd.Panics(func() { subA.WriteUnit(nil, nil, nil) })
+		vnd.Assert(!routed, "nothing written by a replaced or removed publisher reaches the stream afterwards")
+	}
+	vnd.Cover(pa.source == nil && override && a.closed == 1, "replacement refused after the first publisher was closed")
+	vnd.Cover(pa.source != nil && pa.source != defs.Source(a), "publisher replaced")
+}
